@@ -11,12 +11,12 @@
    never delivered.
 
    What is proved instead:
-   - C20_codec_b64 : pick (gram produced by rend's gram_of for code c, number n, body b)
-     returns exactly (mid, vid, n, count, b), for the four zero codes and their
-     non-zeroth codes with Base64 heads, signed and unsigned (sign/verify premises
-     explicit).  The base2 (curt) codec is covered by the differential correspondence
-     only (every gram of every curt case is rebuilt by the model's rend and re-parsed by
-     the model's pick), not by a theorem;
+   - C20_codec_b64 / C20_codec_b2 : pick (gram produced by rend's gram_of for code c,
+     number n, body b) returns exactly (mid, vid, n, count, b), for the four zero codes
+     and their non-zeroth codes, Base64 and base2 (curt) heads, signed and unsigned
+     (sign/verify premises explicit);
+   - C20_rend_partition : rend's gram bodies partition the memo in order, gram numbers
+     are 1,2,.. and the count in the zeroth gram is the number of grams;
    - C20_storage_partial .. C20_delivery_partial : for EVERY sequence of accepted
      grams (any order, duplication, interleaving of any number of memos) fed before a
      fuse pass: the receive state records per memo id the first body per gram number,
@@ -27,7 +27,7 @@
    signed non-zeroth gram this needs its zeroth gram earlier), and no copy of a
    memo's grams arrives after the pass that delivered it. *)
 From Hio Require Import Base.Prelude Model.B64 Model.MemoGram Model.MemoRx
-  Proofs.MemoRxProofs Proofs.MemoFuseProofs Proofs.MemoCodecProofs.
+  Proofs.MemoRxProofs Proofs.MemoFuseProofs Proofs.MemoCodecProofs Proofs.MemoCodecB2Proofs Proofs.MemoRendProofs.
 Local Open Scope N_scope.
 
 (* ---- storage: any order / duplication / interleaving ---- *)
@@ -84,6 +84,24 @@ Theorem C20_delivery_partial : forall es,
 Proof. intros es. split; [apply rx_grams_delivers|apply rx_grams_keeps]. Qed.
 Print Assumptions C20_delivery_partial.
 
+(* ---- segmentation: rend's bodies partition the memo, numbers and count are right ---- *)
+(* For every non-empty memo, every code/encoding and every size for which rend
+   succeeds: the result is the zeroth gram carrying the first zbz bytes and the
+   count, followed by grams numbered 1, 2, ... carrying the consecutive nbz-byte
+   pieces (none empty); the bodies concatenate to the memo; the announced count
+   max(1, ceil((ml+nbz-zbz)/nbz)) equals the number of grams. *)
+Theorem C20_rend_partition : forall sign p memo grams,
+  rend sign p memo = Ok grams -> memo <> [] ->
+  let rest := chunks (length memo) (nbz p) 1 (skipn (zbz p) memo) in
+  (0 < nbz p)%nat /\
+  grams = gram_of sign p (r_code p) (N.of_nat (S (length rest))) (Nat.ltb 0 (vz (r_code p))) (firstn (zbz p) memo)
+          :: map (fun x => gram_of sign p (pair_of (r_code p)) (fst x) false (snd x)) rest /\
+  firstn (zbz p) memo ++ concat (map snd rest) = memo /\
+  map fst rest = map (fun i => 1 + N.of_nat i) (seq 0 (length rest)) /\
+  Forall (fun x => snd x <> []) rest.
+Proof. exact rend_partition. Qed.
+Print Assumptions C20_rend_partition.
+
 (* ---- codec round trip ---- *)
 Theorem C20_codec_b64 : forall verify sign authic vids c n mid vid body,
   codec_premises verify sign vid ->
@@ -102,6 +120,37 @@ Theorem C20_codec_b64 : forall verify sign authic vids c n mid vid body,
         p_body := body |}.
 Proof. exact codec_b64. Qed.
 Print Assumptions C20_codec_b64.
+
+Theorem C20_codec_b2 : forall verify sign authic vids c n mid vid body,
+  codec_premises verify sign vid ->
+  kind_of c <> KAck -> (authic = true -> auth c = true) ->
+  n < 16777216 -> length mid = 24%nat -> is_b64 mid = true ->
+  (auth c = true -> length vid = 44%nat /\ is_b64 vid = true) ->
+  (kind_of c = KGram -> vids mid = (if auth c then vid else vids mid)) ->
+  let p := {| r_code := c; r_curt := true; r_size := 0; r_mid := mid; r_vid := vid |} in
+  pick verify authic vids (gram_of sign p c n (Nat.ltb 0 (vz c)) body) =
+  Ok {| p_mid := mid;
+        p_vid := (match kind_of c with
+                  | KZero => if Nat.ltb 0 (vz c) then Some vid else None
+                  | _ => vid_opt (vids mid) end);
+        p_gn := (match kind_of c with KZero => 0 | _ => n end);
+        p_gc := (match kind_of c with KZero => Some n | _ => None end);
+        p_body := body |}.
+Proof. exact codec_b2. Qed.
+Print Assumptions C20_codec_b2.
+
+(* the premises of the codec theorems are satisfiable: a toy scheme whose
+   signature is 88 'A's *)
+Example C20_codec_example :
+  let sign := fun (_ _ : bytes) => repeat 65 88 in
+  let verify := fun (v s m : bytes) => if bytes_eqb s (repeat 65 88) then Ok tt else @Exc unit MemoErr in
+  let vid := 66 :: repeat 120 43 in
+  codec_premises verify sign vid /\
+  forall curt, pick verify true (fun _ => vid)
+       (gram_of sign {| r_code := AZ; r_curt := curt; r_size := 0; r_mid := repeat 77 24; r_vid := vid |}
+                AN 5 false [104;105]) =
+     Ok {| p_mid := repeat 77 24; p_vid := Some vid; p_gn := 5; p_gc := None; p_body := [104;105] |}.
+Proof. split; [intros m; repeat split|intros []; vm_compute; reflexivity]. Qed.
 
 (* ---- refutations of the full statement (faithful model, concrete witnesses) ---- *)
 Definition toy_verify (v s m : bytes) : res unit :=
